@@ -68,3 +68,13 @@ Theorem C04_error_at_first_non_viable_token : forall A C, valid A C = true -> us
               (exists v', sentence A (u ++ v')) /\ (forall v', ~ sentence A (u ++ k :: v')).
 Proof. intros A C Hv Hn Hp fuel w k exp s Hw H. exact (error_at_first_non_viable_token A C Hv Hn fuel w k exp s Hp Hw H). Qed.
 Print Assumptions C04_error_at_first_non_viable_token.
+
+(** every non-sentence is answered with an error (with C08's termination theorem: the converse that
+    was missing) -- and every sentence with its tree *)
+Theorem C04_every_input_is_answered : forall A C, valid A C = true -> uses_recovery A = false ->
+  forall w, Forall (tok_in_range A) w ->
+  exists n, forall fuel, n <= fuel ->
+    (exists t s, drive A no_fail fuel (map IOk w) = (ROk t, s) /\ wfp A t (Nt (start_nt A)) /\ yield t = w) \/
+    (exists e s, drive A no_fail fuel (map IOk w) = (RErr e, s) /\ ~ sentence A w).
+Proof. exact parser_decides. Qed.
+Print Assumptions C04_every_input_is_answered.
